@@ -50,7 +50,8 @@ def repairedTokenWitnesses : List String := [
   "a \\\n\"b  c\"\n"  /- special-right-after-line-continuation -/,
   "`{ inner }`\n"  /- ws-or-brace-in-backquote -/,
   "\"a\"\"b  c\"\n"  /- glued-after-quote (second round) -/,
-  "{\n\\\na\n}\n"  /- line-continuation-without-token-before (second round) -/
+  "{\n\\\na\n}\n"  /- line-continuation-without-token-before (second round) -/,
+  "{\n\ta \\\n\n}\n"  /- blank-line-after-line-continuation (third round) -/
 ]
 
 /-- witnesses of the idempotence classes retired by the repairs -/
